@@ -12,9 +12,10 @@ open Opus Opus.Framing Opus.FramingSpec Opus.FramingProofs Opus.Repack Opus.Ext
 theorem writeAt_decomp (A M R bs : Bytes) (h : bs.length = M.length) :
     writeAt (A ++ M ++ R) A.length bs = A ++ bs ++ R := by
   unfold writeAt
-  rw [List.append_assoc, List.take_left]
-  congr 1
-  rw [h, ← List.length_append, ← List.append_assoc, List.drop_left]
+  have e1 : (A ++ M ++ R).take A.length = A := by rw [List.append_assoc, List.take_left]
+  have e2 : (A ++ M ++ R).drop (A.length + bs.length) = R := by
+    rw [h, ← List.length_append, List.drop_left]
+  rw [e1, e2]
 
 /-- The frame-moving loop: with the destination at or before the first source and the frames lying
     back to back, every frame arrives intact; the bytes after the last frame are untouched. -/
@@ -51,7 +52,7 @@ theorem moveFrames_spec : ∀ (sizes : List Nat) (A G F R : Bytes), F.length = s
         have := List.take_append_drop f.length (G ++ f)
         calc A ++ G ++ (f ++ F') ++ R = A ++ ((G ++ f) ++ (F' ++ R)) := by simp
           _ = A ++ (((G ++ f).take f.length ++ (G ++ f).drop f.length) ++ (F' ++ R)) := by rw [this]
-          _ = _ := by simp
+          _ = _ := by simp only [List.append_assoc]
       rw [e1, writeAt_decomp A _ _ f (by simp)]
       simp
     rw [hw]
@@ -72,6 +73,7 @@ theorem canon_header_le (sd : Bool) (p : Packet) (hv : Valid p) :
     (header sd (canonPacket p.toc p.frames)).length ≤ (header sd p).length := by
   -- drop the padding of `p`: still valid, header not longer
   obtain ⟨toc, frames, vbr, pad⟩ := p
+  show (header sd (canonPacket toc frames)).length ≤ _
   have hv' : Valid { toc := toc, frames := frames, vbr := vbr, pad := none } := by
     refine ⟨hv.toc_byte, hv.frame_max, ?_, ?_, ?_, hv.code3, by intro pd h; cases h⟩
     · intro h; exact ⟨(hv.code0 h).1, (hv.code0 h).2.1, rfl⟩
@@ -83,15 +85,186 @@ theorem canon_header_le (sd : Bool) (p : Packet) (hv : Valid p) :
   simp only [Bool.false_eq_true, if_false] at hl
   have h1 : (serialize sd (canonPacket toc frames)).length =
       (header sd (canonPacket toc frames)).length + frames.flatten.length := by
-    simp [serialize, canonPacket_nopad, canonPacket, outPacket_frames]
+    have hpb := canonPacket_nopad toc frames
+    have hfr : (canonPacket toc frames).frames = frames := outPacket_frames _ _ _ _ _
+    simp [serialize, hpb, hfr]
   have h2 : (serialize sd { toc := toc, frames := frames, vbr := vbr, pad := none : Packet }).length =
       (header sd { toc := toc, frames := frames, vbr := vbr, pad := none : Packet }).length + frames.flatten.length := by
     simp [serialize, padBytes]
   have h3 : (header sd { toc := toc, frames := frames, vbr := vbr, pad := none : Packet }).length ≤
       (header sd { toc := toc, frames := frames, vbr := vbr, pad := pad : Packet }).length := by
-    simp only [header, Packet.code, lenFields, Packet.lens]
-    cases pad <;> simp <;> split <;> simp
+    by_cases hc : toc % 4 = 3
+    · cases pad <;> simp [header, Packet.code, lenFields, Packet.lens, hc]
+    · cases pad <;> simp [header, Packet.code, lenFields, Packet.lens, hc]
   simp only [Packet.lens] at hmin
   omega
+
+theorem serialize_canon_eq (sd : Bool) (p : Packet) :
+    serialize sd (canonPacket p.toc p.frames) = header sd (canonPacket p.toc p.frames) ++ p.frames.flatten := by
+  have hpb := canonPacket_nopad p.toc p.frames
+  have hfr : (canonPacket p.toc p.frames).frames = p.frames := outPacket_frames _ _ _ _ _
+  simp [serialize, hpb, hfr]
+
+/-- One stream unpadded in place.  The buffer is `P ++ M ++ (the stream) ++ tail`; the write position is
+    `|P|`, the read position `|P| + |M|`.  Afterwards the canonical packet stands at the write position,
+    followed by `|M| + (bytes saved)` stale bytes, and `tail` is untouched. -/
+theorem unpadStreamInPlace_spec (sd : Bool) (p : Packet) (hv : Valid p) (P M tail : Bytes) (maxlen : Int)
+    (hm : ((serialize sd p).length : Int) ≤ maxlen) :
+    ∃ X, X.length + (serialize sd (canonPacket p.toc p.frames)).length = M.length + (serialize sd p).length ∧
+      unpadStreamInPlace (P ++ M ++ serialize sd p ++ tail) (P.length + M.length) (serialize sd p).length P.length maxlen sd =
+        .ok (P ++ serialize sd (canonPacket p.toc p.frames) ++ X ++ tail, (serialize sd (canonPacket p.toc p.frames)).length) := by
+  have hne := valid_ne p hv
+  have hpkt : ((P ++ M ++ serialize sd p ++ tail).drop (P.length + M.length)).take (serialize sd p).length = serialize sd p := by
+    have : P ++ M ++ serialize sd p ++ tail = (P ++ M) ++ (serialize sd p ++ tail) := by simp
+    rw [this, ← List.length_append, List.drop_left, List.take_left]
+  have hcat := cat_first sd p hv [] (fun _ => rfl)
+  simp only [List.append_nil] at hcat
+  have hparse := parse_complete sd p hv [] (fun _ => rfl)
+  simp only [List.append_nil] at hparse
+  have hmin := minSize_minimal sd p hv
+  simp only [Packet.lens] at hmin
+  have hemit : emit p.toc p.frames maxlen sd false #[] = .ok (serialize sd (canonPacket p.toc p.frames)) := by
+    rw [emit_noext p.toc p.frames hne maxlen sd false, if_neg (by omega), outPacket_nopad_sd]
+  have hcl := serialize_canon_eq sd p
+  have hhl := canon_header_le sd p hv
+  have hser : serialize sd p = header sd p ++ p.frames.flatten ++ padBytes p := rfl
+  have hsum : sumN (view sd p).sizes = p.frames.flatten.length := by simp only [view, Packet.lens, sumN_map_length]
+  unfold unpadStreamInPlace
+  simp only [hpkt, show init Rp.empty = Rp.empty from rfl, hcat, hparse]
+  have hst : (firstState p).toc = p.toc ∧ (firstState p).frames = p.frames := ⟨rfl, rfl⟩
+  rw [hst.1, hst.2, hemit]
+  simp only [hsum]
+  rw [if_neg (by rw [hcl]; simp)]
+  have hhdr : (serialize sd (canonPacket p.toc p.frames)).take
+      ((serialize sd (canonPacket p.toc p.frames)).length - p.frames.flatten.length) =
+      header sd (canonPacket p.toc p.frames) := by
+    rw [hcl]; simp
+  rw [hhdr]
+  have hcanlen : (serialize sd (canonPacket p.toc p.frames)).length =
+      (header sd (canonPacket p.toc p.frames)).length + p.frames.flatten.length := by rw [hcl]; simp
+  have hplen : (serialize sd p).length = (header sd p).length + p.frames.flatten.length + (padBytes p).length := by
+    rw [hser]; simp only [List.length_append]
+  rw [if_neg (by simp only [List.length_append]; omega)]
+  -- the header write
+  have hsplit := List.take_append_drop (header sd (canonPacket p.toc p.frames)).length (M ++ header sd p)
+  have hbuf : P ++ M ++ serialize sd p ++ tail =
+      P ++ ((M ++ header sd p).take (header sd (canonPacket p.toc p.frames)).length) ++
+        (((M ++ header sd p).drop (header sd (canonPacket p.toc p.frames)).length) ++ p.frames.flatten ++ (padBytes p ++ tail)) := by
+    calc P ++ M ++ serialize sd p ++ tail = P ++ ((M ++ header sd p) ++ (p.frames.flatten ++ (padBytes p ++ tail))) := by
+            rw [hser]; simp
+      _ = P ++ (((M ++ header sd p).take (header sd (canonPacket p.toc p.frames)).length ++
+            (M ++ header sd p).drop (header sd (canonPacket p.toc p.frames)).length) ++ (p.frames.flatten ++ (padBytes p ++ tail))) := by
+            rw [hsplit]
+      _ = _ := by simp only [List.append_assoc]
+  rw [hbuf, writeAt_decomp P _ _ (header sd (canonPacket p.toc p.frames)) (by simp; omega)]
+  have hpo : (view sd p).payloadOffset = (header sd p).length := rfl
+  rw [hpo]
+  obtain ⟨X, hX, hmv⟩ := moveFrames_spec (view sd p).sizes (P ++ header sd (canonPacket p.toc p.frames))
+    ((M ++ header sd p).drop (header sd (canonPacket p.toc p.frames)).length) p.frames.flatten (padBytes p ++ tail)
+    (by rw [hsum])
+  have hidx : (P ++ header sd (canonPacket p.toc p.frames)).length +
+      ((M ++ header sd p).drop (header sd (canonPacket p.toc p.frames)).length).length =
+      P.length + M.length + (header sd p).length := by simp; omega
+  rw [hidx] at hmv
+  have hdst : (P ++ header sd (canonPacket p.toc p.frames)).length = P.length + (header sd (canonPacket p.toc p.frames)).length := by simp
+  rw [hdst] at hmv
+  have hassoc : P ++ header sd (canonPacket p.toc p.frames) ++
+      (List.drop (header sd (canonPacket p.toc p.frames)).length (M ++ header sd p) ++ p.frames.flatten ++ (padBytes p ++ tail)) =
+      P ++ header sd (canonPacket p.toc p.frames) ++
+      List.drop (header sd (canonPacket p.toc p.frames)).length (M ++ header sd p) ++ p.frames.flatten ++ (padBytes p ++ tail) := by
+    simp only [List.append_assoc]
+  rw [hassoc, hmv]
+  refine ⟨X ++ padBytes p, ?_, ?_⟩
+  · simp only [List.length_append, List.length_drop] at hX ⊢; omega
+  · rw [hcl]; simp only [List.append_assoc]
+
+/-- `opus_packet_unpad` in place = the pure `packetUnpad`: the first `ret` bytes of the buffer are the
+    pure result, and the buffer keeps its length. -/
+theorem packetUnpadInPlace_eq (p : Packet) (hv : Valid p) :
+    ∃ out X, packetUnpad (serialize false p) = .ok out ∧
+      packetUnpadInPlace (serialize false p) = .ok (out ++ X, out.length) ∧
+      (out ++ X).length = (serialize false p).length := by
+  obtain ⟨X, hX, h⟩ := unpadStreamInPlace_spec false p hv [] [] [] (serialize false p).length (Int.le_refl _)
+  simp only [List.nil_append, List.append_nil, List.length_nil, Nat.zero_add] at h hX
+  have hpos := serialize_length_pos false p
+  have hcpos := serialize_length_pos false (canonPacket p.toc p.frames)
+  refine ⟨_, X, unpad_serialize p hv, ?_, by simp; omega⟩
+  unfold packetUnpadInPlace
+  rw [if_neg (by omega), h]
+  simp only []
+  rw [if_pos ⟨hcpos, by omega⟩]
+
+/-- The multistream loop in place. -/
+theorem msUnpadLoopInPlace_spec (ps : List Packet) (hv : ∀ p ∈ ps, Valid p) : ∀ (Done M : Bytes),
+    ∃ X, (Done ++ msSerialize (ps.map fun p => canonPacket p.toc p.frames) ++ X).length = (Done ++ M ++ msSerialize ps).length ∧
+      msUnpadLoopInPlace ps.length (Done ++ M ++ msSerialize ps) (Done.length + M.length) Done.length =
+        .ok (Done ++ msSerialize (ps.map fun p => canonPacket p.toc p.frames) ++ X,
+             Done.length + (msSerialize (ps.map fun p => canonPacket p.toc p.frames)).length) := by
+  induction ps with
+  | nil => intro Done M; exact ⟨M, by simp [msSerialize], by simp [msUnpadLoopInPlace, msSerialize]⟩
+  | cons p ps ih =>
+    intro Done M
+    have hvp := hv p (by simp)
+    rw [msSerialize_cons]
+    simp only [List.length_cons, msUnpadLoopInPlace]
+    have hdec : decide (ps.length ≠ 0) = decide (ps ≠ []) := by simp
+    rw [hdec]
+    generalize hsdv : decide (ps ≠ []) = sd
+    have hrest : sd = false → msSerialize ps = [] := by
+      intro h; subst hsdv
+      cases ps with
+      | nil => rfl
+      | cons => simp at h
+    have hpos := serialize_length_pos sd p
+    have hbuf : Done ++ M ++ (serialize sd p ++ msSerialize ps) = Done ++ M ++ serialize sd p ++ msSerialize ps := by
+      simp only [List.append_assoc]
+    rw [hbuf]
+    rw [if_neg (by simp only [List.length_append]; omega)]
+    have hdrop : (Done ++ M ++ serialize sd p ++ msSerialize ps).drop (Done.length + M.length) = serialize sd p ++ msSerialize ps := by
+      have : Done ++ M ++ serialize sd p ++ msSerialize ps = (Done ++ M) ++ (serialize sd p ++ msSerialize ps) := by simp
+      rw [this, ← List.length_append, List.drop_left]
+    rw [hdrop, parse_complete sd p hvp (msSerialize ps) hrest]
+    simp only []
+    have hpo : (view sd p).packetOffset = (serialize sd p).length := rfl
+    rw [hpo]
+    obtain ⟨X, hX, hstream⟩ := unpadStreamInPlace_spec sd p hvp Done M (msSerialize ps)
+      (((Done ++ M ++ serialize sd p ++ msSerialize ps).length : Int) - ((Done.length + M.length : Nat) : Int))
+      (by simp only [List.length_append]; push_cast; omega)
+    rw [hstream]
+    simp only []
+    obtain ⟨Y, hY, hloop⟩ := ih (fun q hq => hv q (by simp [hq])) (Done ++ serialize sd (canonPacket p.toc p.frames)) X
+    have hsrc : Done.length + M.length + (serialize sd p).length =
+        (Done ++ serialize sd (canonPacket p.toc p.frames)).length + X.length := by simp only [List.length_append]; omega
+    have hdst : Done.length + (serialize sd (canonPacket p.toc p.frames)).length =
+        (Done ++ serialize sd (canonPacket p.toc p.frames)).length := by simp
+    rw [hsrc, hdst, hloop]
+    have hsd2 : decide (ps.map (fun p => canonPacket p.toc p.frames) ≠ []) = sd := by
+      rw [← hsdv]; simp
+    refine ⟨Y, ?_, ?_⟩
+    · rw [List.map_cons, msSerialize_cons, hsd2]
+      simp only [List.length_append] at hY ⊢
+      omega
+    · rw [List.map_cons, msSerialize_cons, hsd2]
+      simp only [List.length_append, List.append_assoc, Nat.add_assoc]
+
+/-- `opus_multistream_packet_unpad` in place = the pure `msUnpad`. -/
+theorem msUnpadInPlace_eq (ps : List Packet) (hne : ps ≠ []) (hv : ∀ p ∈ ps, Valid p) :
+    ∃ out X, msUnpad (msSerialize ps) ps.length = .ok out ∧
+      msUnpadInPlace (msSerialize ps) ps.length = .ok (out ++ X, out.length) ∧
+      (out ++ X).length = (msSerialize ps).length := by
+  obtain ⟨X, hX, h⟩ := msUnpadLoopInPlace_spec ps hv [] []
+  simp only [List.nil_append, List.length_nil, Nat.zero_add, Nat.add_zero] at h hX
+  have hpos : 1 ≤ (msSerialize ps).length := by
+    cases ps with
+    | nil => exact absurd rfl hne
+    | cons p qs =>
+      rw [msSerialize_cons]
+      have := serialize_length_pos (decide (qs ≠ [])) p
+      rw [List.length_append]; omega
+  refine ⟨_, X, msUnpad_serialize ps hne hv, ?_, hX⟩
+  unfold msUnpadInPlace
+  rw [if_neg (by omega)]
+  simp only [Int.toNat_natCast]
+  exact h
 
 end Opus.RepackProofs
